@@ -68,6 +68,10 @@ def bodies(rng, tier):
     out.append(("(n &optional acc)", "(if (<= n 0) acc (f (- n 1)))", "(f %d 5)"))
     out.append(("(n &rest r)", "(if (<= n 0) r (f (- n 1) n (car r)))", "(f %d)"))
     out.append(("(n &rest r)", "(if (<= n 0) (length r) (f (- n 1) 1 2 3))", "(f %d 9)"))
+    out.append(("(n &rest acc)", "(if (<= n 0) acc (f (- n 1) (list n) (car acc)))", "(f %d)"))
+    out.append(("(n &rest acc)", "(if (<= n 0) acc (f (- n 1) 'tag (car acc) ''q))", "(f %d 'first)"))
+    out.append(("(n tag &rest more)", "(cond ((<= n 0) (list tag more)) (t (f (- n 1) tag tag (list tag))))", "(f %d 'sym)"))
+    out.append(("(n &optional o &rest r)", "(if (<= n 0) (list o r) (f (- n 1) (list 'o n) 'r1 (cons 1 2)))", "(f %d)"))
     # shadowing names used by the rewrite
     out.append(("(n list)", "(if (<= n 0) list (f (- n 1) (cons n list)))", "(f %d nil)"))
     out.append(("(n acc)", "(let ((list 5)) (if (<= n 0) acc (f (- n 1) (+ acc list))))", "(f %d 0)"))
